@@ -110,6 +110,17 @@ func allTrees(maxN int) []Tree {
 
 var ops = []string{"String", "IsDeepEqual", "Sort", "Tag"}
 
+// permutations of up to three items
+func perms3(n int) [][]int {
+	switch n {
+	case 1:
+		return [][]int{{0}}
+	case 2:
+		return [][]int{{0, 1}, {1, 0}}
+	}
+	return [][]int{{0, 1, 2}, {0, 2, 1}, {1, 0, 2}, {1, 2, 0}, {2, 0, 1}, {2, 1, 0}}
+}
+
 func opSequences(maxLen int) [][]int {
 	var out [][]int
 	for l := 1; l <= maxLen; l++ {
@@ -312,7 +323,11 @@ func judgePair(lt, rt Tree, seq []int, sub string) (sig, what string) {
 		if sub == "perm" || sub == "self" {
 			// deep-equal inputs must give an all-two-sided diff
 			if gedcom.DeepEqual(L, R) && gedcom.DeepEqual(R, L) && !d.IsDeepEqual() {
-				return "deep-equal-inputs-not-all-two-sided", "inputs are DeepEqual but the diff has a one-sided entry:\n" + d.String()
+				sig := "deep-equal-inputs-not-all-two-sided"
+				if dateSharingTriple(L) {
+					sig += ":non-transitive-date-sharing-siblings"
+				}
+				return sig, "inputs are DeepEqual but the diff has a one-sided entry:\n" + d.String()
 			}
 		}
 		return "", ""
@@ -352,6 +367,35 @@ func judgePair(lt, rt Tree, seq []int, sub string) (sig, what string) {
 		return "sort-changes-diff-content", fmt.Sprintf("Sort changed the multiset of diff lines:\nbefore:\n%s\nafter:\n%s", s0, s1)
 	}
 	return "", ""
+}
+
+// dateSharingTriple: some sibling list holds EVEN (or RESI) nodes x, y, z with x.Equals(y),
+// y.Equals(z) and !x.Equals(z) under the "any shared date" rule of those kinds — the root cause
+// of the known finding (entries are matched greedily by that non-transitive rule).
+func dateSharingTriple(n gedcom.Node) bool {
+	kids := n.Nodes()
+	for _, x := range kids {
+		for _, y := range kids {
+			for _, z := range kids {
+				if x == y || y == z || x == z {
+					continue
+				}
+				t := x.Tag().Tag()
+				if (t != "EVEN" && t != "RESI") || y.Tag().Tag() != t || z.Tag().Tag() != t {
+					continue
+				}
+				if x.Equals(y) && y.Equals(z) && !x.Equals(z) && !z.Equals(x) {
+					return true
+				}
+			}
+		}
+	}
+	for _, c := range kids {
+		if dateSharingTriple(c) {
+			return true
+		}
+	}
+	return false
 }
 
 // permuted copies and insert/remove variants of a tree
@@ -460,6 +504,62 @@ func run(tier, unit string, r *vlib.Rec) {
 				}
 			}
 		}
+	case "classes": // sibling multisets around every specialised Equals rule (gen.EqualityClassPool)
+		pool := gen.EqualityClassPool
+		mk := func(parts ...string) Tree {
+			return Tree{Extra: append([]string{"0 @I1@ INDI"}, parts...)}
+		}
+		var small []Tree // multisets of <=2
+		for a := range pool {
+			small = append(small, mk(pool[a]))
+			for b := a; b < len(pool); b++ {
+				small = append(small, mk(pool[a], pool[b]))
+			}
+		}
+		for i := lo; i < hi; i++ {
+			// (1) every re-ordering of every multiset of 2..3 containing pool[i] as its first element
+			for j := int(i); j < len(pool); j++ {
+				for k := j - 1; k < len(pool); k++ {
+					parts := []string{pool[i], pool[j]}
+					if k >= j {
+						parts = append(parts, pool[k])
+					}
+					lt := mk(parts...)
+					for _, pm := range perms3(len(parts)) {
+						q := make([]string, len(parts))
+						for x, y := range pm {
+							q[x] = parts[y]
+						}
+						rt := mk(q...)
+						r.Eval()
+						r.Count("classes:perm")
+						r.Nontrivial(lt.text() + "|" + rt.text())
+						if s, w := judgePair(lt, rt, nil, "perm"); s != "" {
+							r.Fail(s, w, kase{L: lt, R: rt, Sub: "perm"})
+						}
+						for _, seq := range [][]int{{2}, {0, 2, 1, 3}} {
+							if s, w := judgePair(lt, rt, seq, "perm"); s != "" {
+								r.Fail(s, w, kase{L: lt, R: rt, Ops: seq, Sub: "perm"})
+							}
+						}
+					}
+				}
+			}
+			// (2) the single sibling pool[i] against every multiset of <=2, both directions
+			one := mk(pool[i])
+			for _, o := range small {
+				for _, pr := range [][2]Tree{{one, o}, {o, one}} {
+					r.Eval()
+					r.Count("classes:pair")
+					if s, w := judgePair(pr[0], pr[1], nil, "pair"); s != "" {
+						r.Fail(s, w, kase{L: pr[0], R: pr[1], Sub: "pair"})
+					}
+					if s, w := judgePair(pr[0], pr[1], []int{0, 2, 1, 3}, "pair"); s != "" {
+						r.Fail(s, w, kase{L: pr[0], R: pr[1], Ops: []int{0, 2, 1, 3}, Sub: "pair"})
+					}
+				}
+			}
+		}
 	case "variants":
 		for i := lo; i < hi; i++ {
 			t := trees[i]
@@ -519,6 +619,7 @@ func plan(tier string) []string {
 	}
 	out := vlib.Chunks("pairs", n, size)
 	out = append(out, vlib.Chunks("variants", n, 200)...)
+	out = append(out, vlib.Chunks("classes", int64(len(gen.EqualityClassPool)), 2)...)
 	return out
 }
 
